@@ -40,12 +40,9 @@ pub fn pke_decrypt(cc: &Covercrypt, usk: &UserSecretKey, ctx: &(XEnc, Vec<u8>)) 
     PkeAc::<{ Aes256Gcm::KEY_LENGTH }, Aes256Gcm>::decrypt(cc, usk, ctx).map(|o| o.map(|z| z.to_vec()))
 }
 
+/// Through the public constructor, as an application that builds hints from booleans does.
 pub fn hint(h: bool) -> EncryptionHint {
-    if h {
-        EncryptionHint::Hybridized
-    } else {
-        EncryptionHint::Classic
-    }
+    EncryptionHint::new(h)
 }
 
 pub fn qa(d: &str, a: &str) -> QualifiedAttribute {
